@@ -569,11 +569,16 @@ func (d *dataCloser) Close() error {
 		// transaction starts with an empty list.
 		rcpts := d.c.rcpts
 		d.c.rcpts = nil
+		var refused error
 		for _, rcpt := range rcpts {
 			if _, _, err := d.c.readResponse(250); err != nil {
 				if smtpErr, ok := err.(*SMTPError); ok {
 					if d.statusCb != nil {
 						d.statusCb(rcpt, smtpErr)
+					} else if refused == nil {
+						// Nobody to report it to (Data instead of
+						// LMTPData): do not lose it.
+						refused = smtpErr
 					}
 				} else {
 					return err
@@ -582,6 +587,7 @@ func (d *dataCloser) Close() error {
 				d.statusCb(rcpt, nil)
 			}
 		}
+		return refused
 	} else {
 		_, _, err := d.c.readResponse(250)
 		if err != nil {
